@@ -106,7 +106,7 @@ pub fn c02(cx: &RunCtx) {
 // ---------------------------------------------------------------- C03
 fn c03_dom<D: Dom>(cx: &RunCtx) {
     let k = [Kind::MalformedOk, Kind::WellFormedErr, Kind::PrefixOk];
-    let (cd, fd, chr) = if quick(cx) { (5, 3, 3) } else { (7, 4, 4) };
+    let (cd, fd, chr) = if quick(cx) { (5, 3, 4) } else { (7, 4, 4) };
     tok_run::<D>(cx, "E-TOK Σ_class+foreign", sigma_class(D::EV), cd, 4, 0, &k, None, 2400);
     tok_run::<D>(cx, "E-TOK Σ_full+foreign", sigma_full(D::EV), fd, 3, 0, &k, None, 2400);
     tok_run::<D>(cx, "E-CHR", sigma_chars(D::EV), chr, 9, 0, &k, None, 2400);
@@ -121,8 +121,49 @@ pub fn c03(cx: &RunCtx) {
 // ---------------------------------------------------------------- C04
 fn c04_dom<D: Dom>(cx: &RunCtx) {
     let k = [Kind::Value];
-    let d = if quick(cx) { 7 } else { 8 };
+    let d = if quick(cx) { 6 } else { 8 };
     tok_run::<D>(cx, "E-TOK Σ_ops", sigma_ops(D::EV), d, 4, ONLY_DEFAULT, &k, None, 2400);
+    let mut ops: Vec<&str> = vec!["+", "-", "*", "/", "^"];
+    if D::EV.has_percent() {
+        ops.push("%");
+    }
+    if D::EV.has_bitops() {
+        ops.extend(["&", "|", "<<", ">>"]);
+    }
+    let joiners: Vec<(String, String, String)> = ops.iter().map(|o| (String::new(), o.to_string(), String::new())).collect();
+    ecomp::<D>(cx, sigma_ops(D::EV), &joiners, &k);
+}
+
+/// E-COMP: every explored well-formed string of depth <= 3 (that evaluates to Ok) composed with every other
+/// one through each joiner `pre A mid B post` WITHOUT adding brackets, so that the operators inside A and B
+/// interact with the new construct: expressions of up to 7 tokens plus the joiner, many more of them than
+/// the depth bound alone reaches, each judged against the reference tree
+pub fn ecomp<D: Dom>(cx: &RunCtx, alphabet: Vec<String>, joiners: &[(String, String, String)], kinds: &[Kind]) {
+    if !cx.wants(D::EV.name()) {
+        return;
+    }
+    let subs: std::sync::Mutex<Vec<String>> = std::sync::Mutex::new(Vec::new());
+    let collect = |c: &Ctx<D>, _st: &mut crate::report::Stats, _rec: &crate::report::Recorder| {
+        if let refmodel::parse::Parsed::WellFormed(_) = c.parsed {
+            if c.base.out.ok().is_some() {
+                subs.lock().unwrap().push(c.s.to_string());
+            }
+        }
+    };
+    let none: [Kind; 0] = [];
+    tok_run::<D>(cx, "E-TOK (collecting operands for E-COMP)", alphabet, 3, 9, ONLY_DEFAULT, &none, Some(&collect), 2400);
+    let mut subs = subs.into_inner().unwrap();
+    subs.sort();
+    subs.dedup();
+    let mut list: Vec<String> = Vec::with_capacity(subs.len() * subs.len() * joiners.len());
+    for a in &subs {
+        for b in &subs {
+            for (pre, mid, post) in joiners {
+                list.push(format!("{}{}{}{}{}", pre, a, mid, b, post));
+            }
+        }
+    }
+    crate::fam::run_list::<D>(cx, "E-COMP pre A mid B post over explored operands", &list, &[D::default_at()], kinds);
 }
 pub fn c04(cx: &RunCtx) {
     cx.assume("operands are distinct small primes (and 0.5) so that different groupings give different values; the reference tree is evaluated with the same arithmetic primitives as the subject, so only grouping can differ");
